@@ -432,7 +432,8 @@ func (r *rewriter) rangeMap(s *ast.RangeStmt) ast.Stmt {
 			body = append(body, &ast.AssignStmt{Lhs: []ast.Expr{ast.NewIdent("_")}, Tok: token.ASSIGN, Rhs: []ast.Expr{s.Value}})
 		}
 	}
-	body = append(body, s.Body.List...)
+	// (as a block of its own: the loop body may declare variables named like the loop's again)
+	body = append(body, s.Body)
 	loop := &ast.RangeStmt{
 		Key: ast.NewIdent("_"), Value: kv, Tok: token.DEFINE, X: call,
 		Body: &ast.BlockStmt{List: body},
